@@ -606,6 +606,10 @@ class DEVSSimulator(Simulator[TIME], Generic[TIME]):
         carried out. This is INDEPENDENT of the fact whether the time changes 
         or not. The TIME_CHANGED_EVENT is always fired."""
         if not self._eventlist.is_empty():
+            if (self._eventlist.peek_first().time 
+                    > self._replication.end_sim_time):
+                raise DSOLError("cannot step: the next event is after the "
+                                +"end of the replication")
             event: SimEventInterface = self._eventlist.pop_first()
             self.fire_timed(event.time, Simulator.TIME_CHANGED_EVENT,
                             event.time)
